@@ -530,6 +530,10 @@ func (cfg *LifeCfg) GenAdvance(t *rapid.T, s *Sim) *Action {
 	if a.Blocks < 1 {
 		a.Blocks = 1
 	}
+	if a.Blocks > 60_000 {
+		// hostile timeouts / durations schedule entries near 2^30: every block is executed, so do not walk there
+		a.Blocks = 60_000
+	}
 	return a
 }
 
